@@ -5,7 +5,6 @@ package harness
 import (
 	"fmt"
 	"math/big"
-	"os"
 	"time"
 
 	"github.com/ethereum/go-ethereum/common"
@@ -76,7 +75,7 @@ func refBlockContext(proposer []byte, h int64) ethvm.BlockContext {
 func (r *EVMRef) syncIn(w *World, db *state.StateDB) {
 	for k, a := range w.Accts {
 		addr := common.BytesToAddress(unhx(k))
-		if w.Dead[k] || (!db.Exist(addr) && a.Bal.IsZero() && a.Nonce == 0) {
+		if !db.Exist(addr) && a.Bal.IsZero() && a.Nonce == 0 {
 			continue
 		}
 		if db.GetBalance(addr).Cmp(a.Bal.ToBig()) != 0 {
@@ -98,17 +97,12 @@ func (r *EVMRef) syncOut(w *World) {
 		if !r.db.Exist(addr) {
 			// the account does not exist in the EVM world any more (self-destructed, or emptied)
 			if r.universe[k] && (!a.Bal.IsZero() || a.Nonce != 0) {
-				a.Bal = u256(0)
-				if a.Nonce != 0 && os.Getenv("VERIF_NO_EXCLUSIONS") != "" {
-					a.Nonce = 0 // the reference result; reproduces known finding F10b
-				} else if a.Nonce != 0 {
-					// known finding F10b: the native ledger keeps the nonce (and code marker) of a
-					// self-destructed contract. The address is retired: never addressed again, nonce not compared.
-					if !w.Dead[k] {
-						w.Excluded["F10b:selfdestructed_contract_retired"]++
-					}
-					w.Dead[k] = true
-				}
+				// by the reference the native account is empty again (balance 0, nonce 0)
+				a.Bal, a.Nonce = u256(0), 0
+				w.cause(unhx(k), "contract")
+			}
+			if r.universe[k] && a.Code != nil {
+				w.Dead[k] = true // ex-contract: stays addressable; only its native code marker is no longer compared
 			}
 			continue
 		}
@@ -148,7 +142,7 @@ func (r *EVMRef) Exec(w *World, tx *ctypes.Trx, hash []byte, txIdx int, h int64,
 	msg := ethtypes.NewMessage(from, to, tx.Nonce, tx.Amount.ToBig(), tx.Gas, price.ToBig(), big.NewInt(0), big.NewInt(0), data, nil, false)
 	snap := r.db.Snapshot()
 	r.db.Prepare(common.BytesToHash(hash), txIdx)
-	tr := &touchTracer{seen: map[string]bool{}}
+	tr := &touchTracer{seen: map[string]bool{}, failedTo: map[string]bool{}, inFailed: map[string]bool{}}
 	vmenv := ethvm.NewEVM(refBlockContext(proposer, h), ethcore.NewEVMTxContext(msg), r.db, evm.RIGOMainnetEVMCtrlerChainConfig, ethvm.Config{NoBaseFee: true, Debug: true, Tracer: tr})
 	// every address a frame, a create or a self-destruct touches belongs to the universe from now on
 	defer func() {
@@ -174,6 +168,16 @@ func (r *EVMRef) Exec(w *World, tx *ctypes.Trx, hash []byte, txIdx int, h int64,
 		r.db.RevertToSnapshot(snap)
 		out.Failed, out.Err = true, res.Err.Error()
 		return out
+	}
+	// shapes that exercise the native<->EVM synchronisation around tolerated inner failures
+	if tr.innerFailed > 0 {
+		w.Feat["evm_ok_tx_with_failed_inner_frame"]++
+	}
+	if tr.valueAfterFail > 0 {
+		w.Feat["evm_value_to_target_of_failed_frame_later"]++
+	}
+	if tr.retouched > 0 {
+		w.Feat["evm_addr_touched_in_failed_frame_touched_again"]++
 	}
 	out.Logs = r.db.GetLogs(common.BytesToHash(hash), common.Hash{})
 	if to == nil {
@@ -245,7 +249,20 @@ func (r *EVMRef) Call(from, to, data []byte, h int64) (*RefResult, error) {
 }
 
 // touchTracer records every address that receives a call frame, is created or is the beneficiary of a self-destruct.
-type touchTracer struct{ seen map[string]bool }
+type touchTracer struct {
+	seen           map[string]bool
+	stack          []frameRec
+	failedTo       map[string]bool // targets of inner frames that failed
+	inFailed       map[string]bool // addresses first touched inside a frame that failed
+	innerFailed    int
+	valueAfterFail int
+	retouched      int
+}
+
+type frameRec struct {
+	to      string
+	touched []string // addresses first seen in this frame's subtree
+}
 
 func (t *touchTracer) CaptureTxStart(gasLimit uint64) {}
 func (t *touchTracer) CaptureTxEnd(restGas uint64)    {}
@@ -255,9 +272,37 @@ func (t *touchTracer) CaptureStart(env *ethvm.EVM, from common.Address, to commo
 }
 func (t *touchTracer) CaptureEnd(output []byte, gasUsed uint64, d time.Duration, err error) {}
 func (t *touchTracer) CaptureEnter(typ ethvm.OpCode, from common.Address, to common.Address, input []byte, gas uint64, value *big.Int) {
-	t.seen[ak(to[:])] = true
+	k := ak(to[:])
+	if t.failedTo[k] && value != nil && value.Sign() > 0 {
+		t.valueAfterFail++
+	}
+	if t.inFailed[k] {
+		t.retouched++
+		delete(t.inFailed, k)
+	}
+	fr := frameRec{to: k}
+	if !t.seen[k] {
+		fr.touched = append(fr.touched, k)
+	}
+	t.seen[k] = true
+	t.stack = append(t.stack, fr)
 }
-func (t *touchTracer) CaptureExit(output []byte, gasUsed uint64, err error) {}
+func (t *touchTracer) CaptureExit(output []byte, gasUsed uint64, err error) {
+	if len(t.stack) == 0 {
+		return
+	}
+	fr := t.stack[len(t.stack)-1]
+	t.stack = t.stack[:len(t.stack)-1]
+	if err != nil {
+		t.innerFailed++
+		t.failedTo[fr.to] = true
+		for _, a := range fr.touched {
+			t.inFailed[a] = true
+		}
+	} else if n := len(t.stack); n > 0 {
+		t.stack[n-1].touched = append(t.stack[n-1].touched, fr.touched...)
+	}
+}
 func (t *touchTracer) CaptureState(pc uint64, op ethvm.OpCode, gas, cost uint64, scope *ethvm.ScopeContext, rData []byte, depth int, err error) {
 }
 func (t *touchTracer) CaptureFault(pc uint64, op ethvm.OpCode, gas, cost uint64, scope *ethvm.ScopeContext, depth int, err error) {
